@@ -22,7 +22,10 @@ package policer
 // successes, each for a node of the task that really stored. (Fixed point) a
 // quiet round is reached within 12 rounds and then every primary node (first
 // REP nodes of every list; every node of every list for LOCK/LINK) holds the
-// object.
+// object. Containers may have EC rules behind (or instead of) the REP rules,
+// with node lists of other sizes: LOCK/LINK must then reach every node of
+// every list, TOMBSTONE every node of each EC rule's list ("broadcast across EC
+// SN" in processObject), other non-EC objects are placed by the REP rules only.
 
 import (
 	"context"
@@ -48,9 +51,32 @@ const (
 
 type c27Obj struct {
 	Content int // index of the content object (vpObj*)
-	Lists   [][]int
-	Reps    []uint
-	Init    []bool
+	// Lists holds the REP lists (one per Reps entry) followed by the lists of
+	// the container's EC rules (mixed REP+EC or EC-only policy).
+	Lists [][]int
+	Reps  []uint
+	Init  []bool
+}
+
+func (o *c27Obj) nEC() int { return len(o.Lists) - len(o.Reps) }
+
+// required returns how many nodes of list i must hold the object, as the
+// documented intent of processObject/processNodes says: REP number on REP
+// lists; LOCK/LINK are broadcast over every node of every list; TOMBSTONE is
+// broadcast over every node of each EC rule's list; other non-EC objects are
+// not placed by EC rules at all (ok=false).
+func (o *c27Obj) required(i int) (int, bool) {
+	typ := vpObjTypes[o.Content]
+	if typ == object.TypeLock || typ == object.TypeLink {
+		return len(o.Lists[i]), true
+	}
+	if i < len(o.Reps) {
+		return int(o.Reps[i]), true
+	}
+	if typ == object.TypeTombstone {
+		return len(o.Lists[i]), true
+	}
+	return 0, false
 }
 
 type c27Case struct {
@@ -69,7 +95,11 @@ func (c *c27Case) String() string {
 	for _, o := range c.Objs {
 		fmt.Fprintf(&b, " || %s", vpObjTypes[o.Content])
 		for i, l := range o.Lists {
-			fmt.Fprintf(&b, " REP %d %v", o.Reps[i], l)
+			if i < len(o.Reps) {
+				fmt.Fprintf(&b, " REP %d %v", o.Reps[i], l)
+			} else {
+				fmt.Fprintf(&b, " EC %v", l)
+			}
 		}
 		b.WriteString(" holders=[")
 		first := true
@@ -90,11 +120,10 @@ func (c *c27Case) String() string {
 // primaries returns the nodes that must hold object o at the fixed point.
 func (o *c27Obj) primaries() map[int]bool {
 	res := map[int]bool{}
-	typ := vpObjTypes[o.Content]
 	for i, l := range o.Lists {
-		k := int(o.Reps[i])
-		if typ == object.TypeLock || typ == object.TypeLink {
-			k = len(l)
+		k, ok := o.required(i)
+		if !ok {
+			continue
 		}
 		for _, n := range l[:k] {
 			res[n] = true
@@ -171,7 +200,11 @@ func newC27Env() *c27Env {
 					lists[i][j] = vpNode(x, false)
 				}
 			}
-			return lists, o.Reps, nil, nil
+			var ecRules []iec.Rule
+			for i := 0; i < o.nEC(); i++ {
+				ecRules = append(ecRules, iec.Rule{DataPartNum: 2, ParityPartNum: 2})
+			}
+			return lists, o.Reps, ecRules, nil
 		}
 		n.conns.head = func(node int, a oid.Address, _ []string) error {
 			if node == self {
@@ -237,6 +270,18 @@ func c27Gen(t *rapid.T) *c27Case {
 			o.Lists = append(o.Lists, append([]int(nil), perm[:ln]...))
 			o.Reps = append(o.Reps, uint(rapid.IntRange(1, min(3, ln)).Draw(t, "rep")))
 		}
+		// mixed REP+EC policy (lists of unequal sizes) or, for the broadcast types,
+		// an EC-only one; a REGULAR non-EC object needs a REP rule to be legitimate
+		typ := vpObjTypes[o.Content]
+		nec := rapid.SampledFrom([]int{0, 0, 1, 1, 2}).Draw(t, "ecLists")
+		if typ != object.TypeRegular && nec > 0 && rapid.IntRange(0, 3).Draw(t, "ecOnly") == 0 {
+			o.Lists, o.Reps = nil, nil
+		}
+		for i := 0; i < nec; i++ {
+			ln := rapid.IntRange(1, c.N).Draw(t, "ecLen")
+			perm := rapid.Permutation(all).Draw(t, "ecList")
+			o.Lists = append(o.Lists, append([]int(nil), perm[:ln]...))
+		}
 		o.Init = make([]bool, c.N)
 		for n := range o.Init {
 			o.Init[n] = rapid.IntRange(0, 2).Draw(t, "holds") == 0
@@ -278,9 +323,30 @@ func TestVerifC27Converge(t *testing.T) {
 		for oi := range c.Objs {
 			prim := c.Objs[oi].primaries()
 			inCnr := map[int]bool{}
-			for _, l := range c.Objs[oi].Lists {
+			for i, l := range c.Objs[oi].Lists {
+				if _, ok := c.Objs[oi].required(i); !ok {
+					continue
+				}
 				for _, n := range l {
 					inCnr[n] = true
+				}
+			}
+			if o := &c.Objs[oi]; o.nEC() > 0 {
+				typ := vpObjTypes[o.Content]
+				switch {
+				case len(o.Reps) == 0:
+					labels = append(labels, "ec-only&"+strings.ToLower(typ.String()))
+				case typ == object.TypeTombstone:
+					labels = append(labels, "mixed-rep-ec&tombstone")
+					for i := range o.Reps {
+						for j := len(o.Reps); j < len(o.Lists); j++ {
+							if i == j-len(o.Reps) && len(o.Lists[i]) < len(o.Lists[j]) {
+								labels = append(labels, "mixed-rep-ec&tombstone&rep-list-shorter")
+							}
+						}
+					}
+				default:
+					labels = append(labels, "mixed-rep-ec&"+strings.ToLower(typ.String()))
 				}
 			}
 			for n := range prim {
